@@ -23,16 +23,19 @@ def trafo3w(pp, net, hv, mv, lv, vn=(20.0, 20.0, 0.4), **kw):
 
 def build_T4():
     """Topology.tla template: buses 0..3, lines l0(0-1) l1(1-2) l2(0-2), trafo t0(2->3), trafo3w w0(0,1,3),
-    ext_grids e0@0 e1@2, slack gen g0@3, PV gen g1@1, switches s0 b(1,2) s1 l(1,l0) s2 t(3,t0) s3 t3(1,w0) s4 l(0,l0)."""
+    l3(0-1, parallel to l0, 4 km), trafo3w w1(0,2,3), ext_grids e0@0 e1@2, slack gen g0@3, PV gen g1@1, switches s0 b(1,2) s1 l(1,l0)
+    s2 t(3,t0) s3 t3(1,w0) s4 l(0,l0) s5 t3(0,w1)."""
     import pandapower as pp
     net = pp.create_empty_network()
     for i, vn in enumerate([20.0, 20.0, 20.0, 0.4]):
         pp.create_bus(net, vn_kv=vn, index=i)
     line(pp, net, 0, 1)
-    line(pp, net, 1, 2)
+    line(pp, net, 1, 2, km=2.0)
     line(pp, net, 0, 2)
+    line(pp, net, 0, 1, km=4.0)          # l3: parallel to l0, longer
     trafo(pp, net, 2, 3)
     trafo3w(pp, net, 0, 1, 3)
+    trafo3w(pp, net, 0, 2, 3)            # w1: shares bus 0 and bus 3 with w0
     pp.create_ext_grid(net, 0, vm_pu=1.0)
     pp.create_ext_grid(net, 2, vm_pu=1.0)
     pp.create_gen(net, 3, p_mw=0.01, vm_pu=1.0, slack=True)
@@ -42,6 +45,7 @@ def build_T4():
     pp.create_switch(net, 3, 0, et="t")
     pp.create_switch(net, 1, 0, et="t3")
     pp.create_switch(net, 0, 0, et="l")
+    pp.create_switch(net, 0, 1, et="t3")  # s5: w1 at its hv bus
     for b in range(4):
         pp.create_load(net, b, p_mw=0.05, q_mvar=0.01)
     pp.create_sgen(net, 2, p_mw=0.02, q_mvar=0.0)
@@ -52,17 +56,17 @@ def build_T4():
 def apply_T4(net, f):
     """Mutate the flags of a T4 net in place from the spec's flag record."""
     net.bus["in_service"] = np.array([f["b0"], f["b1"], f["b2"], f["b3"]], dtype=bool)
-    net.line["in_service"] = np.array([f["l0"], f["l1"], f["l2"]], dtype=bool)
+    net.line["in_service"] = np.array([f["l0"], f["l1"], f["l2"], f["l3"]], dtype=bool)
     net.trafo["in_service"] = np.array([f["t0"]], dtype=bool)
-    net.trafo3w["in_service"] = np.array([f["w0"]], dtype=bool)
+    net.trafo3w["in_service"] = np.array([f["w0"], f["w1"]], dtype=bool)
     net.ext_grid["in_service"] = np.array([f["e0"], f["e1"]], dtype=bool)
     net.gen["in_service"] = np.array([f["g0"], f["g1"]], dtype=bool)
-    net.switch["closed"] = np.array([f["s0"], f["s1"], f["s2"], f["s3"], f["s4"]], dtype=bool)
-    net.switch["z_ohm"] = np.array([0.5 if f["z0"] else 0.0, 0, 0, 0, 0], dtype=float)
+    net.switch["closed"] = np.array([f["s0"], f["s1"], f["s2"], f["s3"], f["s4"], f["s5"]], dtype=bool)
+    net.switch["z_ohm"] = np.array([0.5 if f["z0"] else 0.0, 0, 0, 0, 0, 0], dtype=float)
 
 
-T4_FLAGS = ["b0", "b1", "b2", "b3", "l0", "l1", "l2", "t0", "w0", "e0", "e1", "g0", "g1", "s0", "s1", "s2", "s3",
-            "s4", "z0"]
+T4_FLAGS = ["b0", "b1", "b2", "b3", "l0", "l1", "l2", "l3", "t0", "w0", "w1", "e0", "e1", "g0", "g1", "s0", "s1", "s2", "s3",
+            "s4", "s5", "z0"]
 
 
 def char_table(ids_steps, base_vk=6.0, base_vkr=1.0):
